@@ -186,6 +186,8 @@ def gen_stack(rng):
         for i in range(len(ops)):
             if ops[i] == "step" and rng.random() < 0.3:
                 ops.insert(i + 1, rng.choice(["orig", "orig", "normcall"]))
+                if ops[i + 1] == "orig" and rng.random() < 0.5:
+                    ops.insert(i + 2, "orig")  # asked twice with no step in between: the first answer, overwritten by the twin, must not leak into the second
     return {"what": "vecenv", "kind": kind, "n_envs": n_envs, "wrappers": wrappers, "ops": ops,
             "n_stack": rng.randint(1, 4), "script_seed": rng.randint(0, 10**6),
             # coverage audit: VecNormalize with every flag combination, training toggled off, frame stack channel orders,
@@ -985,13 +987,22 @@ def main():
     with ProcessPoolExecutor(max_workers=8) as ex:
         results = list(ex.map(_run_case, cases, chunksize=4))
     hist, distinct, ops_total = {}, set(), 0
+
+    def case_key(c):
+        return c["what"] + ":" + (c.get("cls") or c.get("obs") or "+".join(c.get("wrappers", [])))
     for c, res in zip(cases, results):
-        key = c["what"] + ":" + (c.get("cls") or c.get("obs") or "+".join(c.get("wrappers", [])))
+        key = case_key(c)
         hist[key] = hist.get(key, 0) + 1
         ops_total += res["nops"]
         nontrivial = (c["what"] == "vecenv" and c["ops"].count("reset") >= 2 and "step" in c["ops"]) or (c["what"] == "buffer" and c["n_ops"] >= 5) or c["what"] == "predict"
         if nontrivial:
             distinct.add(json.dumps(c, sort_keys=True))
+    # concrete failing histories first (shortest first), then - only when fewer than three were found - the correspondences that
+    # no longer check
+    concrete = sorted([(c, res) for c, res in zip(cases, results) if res["problems"]],
+                      key=lambda cr: len(cr[0].get("ops", [])) or cr[0].get("n_ops", 0))
+    for c, res in concrete[:3] + [(c, res) for c, res in zip(cases, results) if not res["problems"]]:
+        key = case_key(c)
         if res["problems"]:
             sig, msg = res["problems"][0]
             chk.violation(sig.replace("oracle-", "") + "-" + key.replace(":", "-"), msg, {"case": c, "problems": res["problems"], "live_sharing": res["live"]}, found_input=True)
